@@ -145,7 +145,7 @@ def build(ctx):
                   for k, chunk in enumerate(groups):
                     nm = kind + "_" + (chunk[0][0] if dynamic else str(k))
                     hs.append(P.Harness("%s_%s_%s_%s_cxx%s" % (sch.ns, msg.name, lv.name, nm, std), mk(u, g, chunk, N, 0, D), [u], unwind=G + 2,
-                                        cap=ctx.q(300, 900), backends=["minisat", "kissat"], extra_flags=["--no-standard-checks"],
+                                        cap=ctx.q(600, 1200), backends=["minisat", "kissat"], extra_flags=["--no-standard-checks"],
                                         meta={"big_loops": ["ref_walk_%s.%d" % (msg.name, x) for x in range(16)]},
                                         desc="const view of %s.%s level %s: getters %s return the reference values and leave every byte unchanged" % (sch.ns, msg.name, lv.name, [a[0] for a in chunk]),
                                         bounds={"N": N, "G": G, "D": D, "std": "c++" + std}))
